@@ -8,6 +8,7 @@ use tfref::alpha::{gen_fracs, run_bounded, weyl_fracs};
 use tfref::big::{dd_valid, Dy};
 
 pub const CALLS: [&str; 5] = ["floor", "ceil", "trunc", "round", "fract"];
+pub const TRAIT_CALLS: [&str; 5] = ["Float::floor", "Float::ceil", "Float::trunc", "Float::round", "Float::fract"];
 
 pub fn judge(call: usize, x: [f64; 2]) -> Verdict {
     let name = CALLS[call];
@@ -27,9 +28,6 @@ pub fn judge(call: usize, x: [f64; 2]) -> Verdict {
         Ok((a, b)) => ([a.hi(), a.lo()], [b.hi(), b.lo()]),
         Err(m) => return Verdict::fail("no_panic", name, &args, format!("panic: {}", m), "a value".into(), "panic"),
     };
-    if r[0].to_bits() != rt[0].to_bits() || r[1].to_bits() != rt[1].to_bits() {
-        return Verdict::fail("trait_identical", name, &args, format!("inherent {} vs num_traits::Float {}", show_dd(r), show_dd(rt)), "identical words".into(), "trait_differs");
-    }
     let v = Dy::from_dd(x[0], x[1]);
     let want = match call {
         0 => v.floor(),
@@ -38,11 +36,19 @@ pub fn judge(call: usize, x: [f64; 2]) -> Verdict {
         3 => v.round_half_away(),
         _ => v.fract(),
     };
-    if !r[0].is_finite() || !r[1].is_finite() || !dd_valid(r[0], r[1]) {
-        return Verdict::fail("valid", name, &args, show_dd(r), format!("a valid TwoFloat with value {:?}", want.to_dd_rn()), "invalid_result");
+    // the inherent method, and the num_traits::Float spelling whenever it returns different words: each must be a
+    // valid TwoFloat with the exact value (bit-identity of the spellings is C10's claim, not this property's)
+    let mut cands: Vec<(&'static str, [f64; 2])> = vec![(name, r)];
+    if r[0].to_bits() != rt[0].to_bits() || r[1].to_bits() != rt[1].to_bits() {
+        cands.push((TRAIT_CALLS[call], rt));
     }
-    if !Dy::from_dd(r[0], r[1]).eq(&want) {
-        return Verdict::fail("exact_value", name, &args, show_dd(r), format!("exact value {:?} = {}", want.to_dd_rn().map(show_dd_t), want.to_hex()), "wrong_value");
+    for (nm, r) in cands {
+        if !r[0].is_finite() || !r[1].is_finite() || !dd_valid(r[0], r[1]) {
+            return Verdict::fail("valid", nm, &args, show_dd(r), format!("a valid TwoFloat with value {:?}", want.to_dd_rn()), "invalid_result");
+        }
+        if !Dy::from_dd(r[0], r[1]).eq(&want) {
+            return Verdict::fail("exact_value", nm, &args, show_dd(r), format!("exact value {:?} = {}", want.to_dd_rn().map(show_dd_t), want.to_hex()), "wrong_value");
+        }
     }
     Verdict::Pass
 }
@@ -52,7 +58,7 @@ fn show_dd_t(t: (f64, f64)) -> String {
 }
 
 pub fn replay(call: &str, _clause: &str, args: &[u64]) -> Verdict {
-    let ci = CALLS.iter().position(|c| *c == call).expect("unknown call");
+    let ci = CALLS.iter().position(|c| *c == call).or_else(|| TRAIT_CALLS.iter().position(|c| *c == call)).expect("unknown call");
     judge(ci, [f64::from_bits(args[0]), f64::from_bits(args[1])])
 }
 
